@@ -81,6 +81,12 @@ _FAMILIES = [
     (r"(^|\.)(add_child|move_to|set_data|rename|remove|_register)($|\.)", ["C03"]),  # the sibling-uniqueness checks live in these
     (r"(^|\.)(to_dict|to_dict_list|from_dict)($|\.)", ["C14"]),
     (r"(^|\.)(to_list_iter|save|load|_from_list)($|\.)", ["C05", "C12"]),
+    (r"(^|\.)(diff)($|\.)", ["C11"]),
+    (r"^Node\.name$", ["C09", "C16"]),  # what searches match and what the default rendering shows
+    (r"(^|\.)(depth|calc_depth|calc_height|count_descendants|get_parent_list|get_path|get_common_ancestor|is_descendant_of|is_ancestor_of|get_top|get_index|get_siblings|"
+     r"first_child|last_child|first_sibling|last_sibling|prev_sibling|next_sibling|is_first_sibling|is_last_sibling)($|\.)", ["C10"]),
+    (r"(^|\.)(to_dot|to_dotfile|to_mermaid_flowchart|to_rdf_graph)($|\.)", ["C17"]),
+    (r"(^|\.)(count|count_unique|__len__|get_clones|is_clone)($|\.)", ["C02"]),
 ]
 _FAMILY_MODULES = {"diff": ["C11"], "dot": ["C17"], "mermaid": ["C17"], "rdf": ["C17"], "fs": ["C19"], "tree_generator": ["C20"]}
 
